@@ -213,4 +213,48 @@ theorem remOf_suffix (i : Nat) : ∀ (sch : List Nat) (c : CfgN), remOf (runSche
       · have : remOf (stepN k c) i = remOf c i := by rw [h]; simp [remOf, e]
         rw [this]; exact List.suffix_refl _
 
+/-- who moves, as a writer index -/
+def whoIdx (z : Bool × Step) : Nat := if z.1 then 0 else 1
+
+/-- every two-writer interleaving IS a schedule of the N-writer machine with two writers: executing it there gives the
+same file system and the same local states -/
+theorem exec2_as_schedule {xs ys : List Step} {zs : List (Bool × Step)} (hi : Interleave xs ys zs) :
+    ∀ (c : Cfg2) (xs' ys' : List Step),
+      runSched (zs.map whoIdx) ⟨c.fs, [c.l1, c.l2], [xs ++ xs', ys ++ ys']⟩ =
+        ⟨(exec2 zs c).fs, [(exec2 zs c).l1, (exec2 zs c).l2], [xs', ys']⟩ := by
+  induction hi with
+  | nil => intro c xs' ys'; rfl
+  | @left x xs ys zs _ ih =>
+    intro c xs' ys'
+    have := ih (apply2 (true, x) c) xs' ys'
+    simp only [List.map_cons, runSched_cons, exec2_cons]
+    rw [← this]
+    simp [whoIdx, stepN, apply2_left]
+  | @right y xs ys zs _ ih =>
+    intro c xs' ys'
+    have := ih (apply2 (false, y) c) xs' ys'
+    simp only [List.map_cons, runSched_cons, exec2_cons]
+    rw [← this]
+    simp [whoIdx, stepN, apply2_right]
+
+/-- a prefix of an interleaving is an interleaving of prefixes -/
+theorem interleave_take {xs ys : List Step} {zs : List (Bool × Step)} (hi : Interleave xs ys zs) :
+    ∀ m : Nat, ∃ xa xb ya yb, xs = xa ++ xb ∧ ys = ya ++ yb ∧ Interleave xa ya (zs.take m) := by
+  induction hi with
+  | nil => intro m; exact ⟨[], [], [], [], rfl, rfl, by simpa using Interleave.nil⟩
+  | @left x xs ys zs _ ih =>
+    intro m
+    cases m with
+    | zero => exact ⟨[], x :: xs, [], ys, rfl, rfl, by simpa using Interleave.nil⟩
+    | succ m =>
+      obtain ⟨xa, xb, ya, yb, h1, h2, h3⟩ := ih m
+      exact ⟨x :: xa, xb, ya, yb, by rw [h1]; rfl, h2, by rw [List.take_succ_cons]; exact .left h3⟩
+  | @right y xs ys zs _ ih =>
+    intro m
+    cases m with
+    | zero => exact ⟨[], xs, [], y :: ys, rfl, rfl, by simpa using Interleave.nil⟩
+    | succ m =>
+      obtain ⟨xa, xb, ya, yb, h1, h2, h3⟩ := ih m
+      exact ⟨xa, xb, y :: ya, yb, h1, by rw [h2]; rfl, by rw [List.take_succ_cons]; exact .right h3⟩
+
 end PromVerif.Model.Textfile
